@@ -27,6 +27,10 @@ def main():
     name = "%s-%s" % (pid, os.path.basename(out.rstrip("/")))
     dst = os.path.join("/verif/seeded", name)
     meta = {"property": pid, "source": "fresh sub-agent given only the property text and a scratch worktree", "ran": []}
+    saved = "/root/scratch/seed-confirm-%s.json" % name
+    if os.environ.get("SEEDED_SKIP_CONFIRM") and os.path.exists(saved):
+        meta = json.load(open(saved))
+        return detect(meta, pid, extra, patch, src, dst)
     sh("git checkout -- . && git clean -fdq")
     demos = [f for f in os.listdir(src) if f.endswith("_test.go")]
     # demo on the clean tree
@@ -63,6 +67,13 @@ def main():
         print(o0[-600:], o1[-600:], os_[-600:])
         json.dump(meta, open("/tmp/seed-%s.json" % name, "w"), indent=1)
         return 1
+    json.dump(meta, open(saved, "w"), indent=1)
+    if os.environ.get("SEEDED_CONFIRM_ONLY"):
+        return 0
+    return detect(meta, pid, extra, patch, src, dst)
+
+
+def detect(meta, pid, extra, patch, src, dst):
     # detection on /repo
     subprocess.run(["git", "-C", "/repo", "apply", patch], check=True)
     det = {}
